@@ -22,6 +22,9 @@ impl Check for C14 {
         tier.pick(500_000, 12_000_000)
     }
     fn run_case(&self, src: &mut Src, obs: &mut Obs) -> Result<(), Fail> {
+        if src.chance(1, 400) {
+            return if src.chance(1, 4) { long_batch::<f32>(src, obs) } else { long_batch::<f64>(src, obs) };
+        }
         let two_d = src.chance(1, 3);
         match (two_d, src.chance(1, 5)) {
             (false, false) => run::<f64>(src, obs, false),
@@ -50,6 +53,73 @@ impl Check for C14 {
     fn required_classes(&self, _t: Tier) -> Vec<&'static str> {
         vec!["dim:1", "dim:2", "buf:right", "buf:axis-1", "buf:axis+1", "buf:trailing-permuted", "buf:query-permuted", "buf:same-count", "buf:wrong-rank", "2d:xs-ys-differ", "ep:interp_into", "ep:array_into", "qdim:Ix1", "qdim:Ix2", "qdim:IxDyn", "empty-query-wrong-trailing", "right-shape:ok", "right-shape:ok-strided-window", "wrong-shape:panicked"]
     }
+}
+
+/// long rank-1 batches (up to 9000 points) whose length sits on or next to a multiple of a power of two, with a buffer that
+/// has the right number of rows or one row too few / too many (block-wise processing must not lose the row-count check)
+fn long_batch<T: Flt>(src: &mut Src, obs: &mut Obs) -> Result<(), Fail> {
+    obs.class("batch:long");
+    obs.class(format!("T:{}", T::NAME));
+    let two_d = src.chance(1, 4);
+    obs.class(if two_d { "dim:2" } else { "dim:1" });
+    let b = 1usize << src.usize_in(6, 12);
+    let m = src.usize_in(1, (9000 / b).max(1));
+    let q = match src.below(4) {
+        0 | 1 => b * m,
+        2 => b * m + 1,
+        _ => b * m - 1,
+    }
+    .clamp(2, 9001);
+    let delta: isize = [0, -1, 1, -1, 1][src.below(5) as usize];
+    let rows = (q as isize + delta) as usize;
+    let lanes = src.usize_in(1, 2);
+    let dynq = src.chance(1, 3);
+    let qd = if dynq { QDim::Dyn } else { QDim::S1 };
+    obs.class(format!("qdim:{}", qd.name()));
+    obs.class(match delta {
+        0 => "buf:right",
+        -1 => "buf:axis-1",
+        _ => "buf:axis+1",
+    });
+    let pk = poison_key::<T>();
+    let qv: Vec<T> = (0..q).map(|k| T::of(((k * 37) % 101) as f64 / 101.0 * 2.0)).collect();
+    let qa = ArrayD::from_shape_vec(IxDyn(&[q]), qv).unwrap();
+    let mut buf = ArrayD::from_elem(IxDyn(&[rows, lanes]), T::from_key(pk));
+    let desc = format!("T={} {} query {}[{q}] (block {b} x {m}), data lanes {lanes}, buffer [{rows}, {lanes}]", T::NAME, if two_d { "Bilinear" } else { "Interp1D" }, qd.name());
+    let res: Result<Option<Result<(), String>>, String> = if two_d {
+        let data: Vec<f64> = (0..3 * 3 * lanes).map(|i| (i * i % 7) as f64).collect();
+        let i = match build2::<T>(None, None, arr_d::<T>(&[3, 3, lanes], &data), DDim::S3, false) {
+            Some(Ok(i)) => i,
+            _ => fail!("oracle-bug", "grid build failed"),
+        };
+        catch(|| i.t_array_into(qa.view(), qa.view(), qd, buf.view_mut()))
+    } else {
+        let data: Vec<f64> = (0..3 * lanes).map(|i| (i * i % 5) as f64).collect();
+        let strat = if src.bool() { Strat1::Linear { extrapolate: false } } else { Strat1::Spline { extrapolate: false, bc: Bc::Natural } };
+        let i = match build1::<T>(None, arr_d::<T>(&[3, lanes], &data), DDim::S2, &strat) {
+            Some(Ok(i)) => i,
+            _ => fail!("oracle-bug", "build failed"),
+        };
+        catch(|| i.t_array_into(qa.view(), qd, buf.view_mut()))
+    };
+    obs.asserts += 1;
+    let untouched = buf.iter().filter(|v| v.key() == pk).count();
+    match (delta, res) {
+        (0, Ok(Some(Ok(())))) => {
+            if untouched != 0 {
+                fail!("not-overwritten/long-batch", "{desc}: the call returned Ok but {untouched} buffer elements were never written");
+            }
+            obs.class("right-shape:ok");
+        }
+        (0, other) => fail!("right-shape-rejected/long-batch", "{desc}: a correctly shaped buffer was not accepted: {other:?}"),
+        (_, Ok(Some(Ok(())))) => fail!(format!("wrong-shape-accepted/long-batch/{}", if delta < 0 { "buf:axis-1" } else { "buf:axis+1" }), "{desc}: the call returned Ok ({untouched} buffer elements untouched)"),
+        (_, Ok(None)) => fail!("oracle-bug", "buffer rank"),
+        (_, _) => obs.class("wrong-shape:panicked"),
+    }
+    obs.nontrivial = delta != 0;
+    obs.key(&desc);
+    obs.describe(|| json!({"case": desc}));
+    Ok(())
 }
 
 pub fn poison_key<T: Flt>() -> u64 {
